@@ -214,16 +214,58 @@ func c19Case(c *core.Ctx, rng *rand.Rand, dir string, idx int) {
 				break
 			}
 			to := filepath.Join(cands[rng.Intn(len(cands))], names[rng.Intn(len(names))])
-			if _, e := os.Lstat(to); e == nil || under(to, from) {
+			if rng.Intn(4) == 0 {
+				// rename ONTO an existing empty directory of the tree (rename(2) replaces it)
+				var empties []string
+				for _, x := range cands {
+					isRoot := false
+					for _, r := range roots {
+						if x == r {
+							isRoot = true
+						}
+					}
+					if ents, e := os.ReadDir(x); e == nil && len(ents) == 0 && !isRoot && x != from {
+						empties = append(empties, x)
+					}
+				}
+				if len(empties) > 0 {
+					to = empties[rng.Intn(len(empties))]
+				}
+			}
+			if under(to, from) || under(from, to) {
 				break
+			}
+			if fi, e := os.Lstat(to); e == nil {
+				ents, _ := os.ReadDir(to)
+				if !fi.IsDir() || len(ents) > 0 {
+					break
+				}
+				c.Count("renames_onto_an_existing_empty_directory", 1)
 			}
 			if !s.Sync(&rep, false) {
 				break
 			}
+			_, ontoExisting := os.Lstat(to)
+			mark := len(s.Want)
 			if s.Rename(from, to) != nil {
 				break
 			}
+			if ontoExisting == nil {
+				// The replaced directory's own IN_ATTRIB (link count) is queued behind the
+				// IN_MOVED_TO; by then the backend has already re-pointed that path to the moved
+				// directory and dropped the victim's watch, so this Chmod of a directory that is
+				// being destroyed is not reported. The statement does not ask for it: optional.
+				kept := s.Want[:mark]
+				for _, e := range s.Want[mark:] {
+					if e.Name == to && e.Op == fsnotify.Chmod {
+						continue
+					}
+					kept = append(kept, e)
+				}
+				s.Want = kept
+			}
 			// move the tree in the driver's and the shadow's books, by path component
+			delete(dirs, to) // a replaced directory is gone (its watch ended with IN_DELETE_SELF)
 			for x := range dirs {
 				if under(x, from) {
 					delete(dirs, x)
